@@ -27,17 +27,16 @@ def run(ctx):
     # scheme -> tag in all entry points
     fks = ["SignCryptCiphertext<C>::decrypt", "SignCryptCiphertext<C>::decrypt_with_shares", "SignCryptCiphertext<C>::is_valid", "SignCryptDecryptionKey<C>::decrypt", "PublicKey<C>::sign_crypt"]
     fns = [f for f in (ctx.need_fn("E2-A", k) for k in fks) if f is not None]
-    n, _ = check_arm_purity(ctx, "E2-A", P, fns)
-    ctx.floor("E2-A", "scheme dispatch switches in signcryption entry points", n, 5)
+    from .common import with_mappers, check_dispatching
+
+    check_arm_purity(ctx, "E2-A", P, with_mappers(P, fns))
+    check_dispatching(ctx, "E2-A", P, fns)
+    from .common import scheme_roots
+
     for f in fns:
-        ev = evaluate(f)
-        for b, d in ev.switch.items():
-            v = G.variant_of_switch(P, f, b, 0)
-            if v and v[0] == "SignatureSchemes":
-                root = F.projection_root(strip_sites(d).a[0]) if d.op == "discr" else None
-                who = (root[0].a[1] + root[1]) if root else None
-                want = {"SignCryptDecryptionKey<C>::decrypt": "ciphertext.scheme", "PublicKey<C>::sign_crypt": "scheme"}.get(f.key, "self.scheme")
-                ctx.ob("E2.own-scheme", f.key, who == want, "tag is selected by `%s` (want `%s`)" % (who, want), where=where(f, b))
+        want = {"SignCryptDecryptionKey<C>::decrypt": "ciphertext.scheme", "PublicKey<C>::sign_crypt": "scheme"}.get(f.key, "self.scheme")
+        roots = scheme_roots(P, f)
+        ctx.ob("E2.own-scheme", f.key, bool(roots) and all(r == want for r in roots), "tag is selected by %s (want `%s`)" % (roots, want), where=where(f))
     # flag provenance
     f = ctx.need_fn("E6.flag", "BlsSignCrypt::decrypt")
     if f is not None:
